@@ -49,6 +49,25 @@ UNITS = {
         'template': 'header.vrs', 'backend': 'verus',
         'serves': ['C03', 'C12', 'C13'],
     },
+    'oligo_vec': {
+        'template': 'oligo_vec.vrs', 'backend': 'verus',
+        'serves': ['C04', 'C12', 'C13', 'C14'],
+        'fn_props': {
+            r'^OligoComputer::vectorise_one$': ['C04', 'C14', 'C13'],
+            r'^ocgr::': ['C12', 'C14'],
+            r'^py::': ['C13', 'C14'],
+        },
+    },
+    'float_kani': {
+        'backend': 'kani', 'crate': 'float_h', 'serves': ['C04', 'C08', 'C11', 'C12'], 'needs_lock': False,
+        'harnesses': [
+            {'name': 'f64_succ_exact', 'complete': True, 'bound': 'none (loop-free, all n < 2^53)',
+             'claim': 'axiom A1: (n as f64) + 1.0 == (n+1) as f64 exactly for every n < 2^53'},
+            {'name': 'cgr_midpoint_half_square', 'complete': True, 'bound': 'none (loop-free, all S in [1,2^20], all m in [0,S])',
+             'claim': 'axiom A3: (0+m)/2 in [0,S/2] and (S+m)/2 in [S/2,S]'},
+        ],
+        'trusted': ['CBMC floating-point model (IEEE-754 binary64, round-to-nearest-even)'],
+    },
     'n2k': {
         'template': 'n2k.vrs', 'backend': 'verus',
         'serves': ['C02', 'C03'],
@@ -107,6 +126,18 @@ PROPS = {
                       'discharged deductively (listed under not_reached). join(delim) of the header vector is std.',
         'not_reached': ['closed form count == (4^k + 4^(k/2))/2 (even k) / 4^k/2 (odd k): cardinality of the canonical set, independent of the code once the bijection contract holds',
                         'String::join with the delimiter and the write of the header line (std)'],
+    },
+    'C04': {
+        'units': ['oligo_vec', 'float_kani'], 'deps': ['kmer_gen', 'posmaps'], 'replay': 'c04',
+        'level_text': 'Verus proves for the verbatim accumulation loop (three copies: oligo.rs vectorise_one, oligocgr.rs seq_to_kmer, pybindings vectorise_one), '
+                      'every byte string shorter than 2^53 and every k in 1..=15: the row has one value per canonical column and column i holds of_nat(number of valid '
+                      'windows whose canonical code is the column k-mer), raw, or divided by fmax(1, total valid windows) when normalised (all-zero row when there is no window); '
+                      'every unchecked index is in bounds. Float operations are abstract (R9); the one arithmetic fact used (x + 1.0 exact below 2^53) is discharged by Kani on real f64.',
+        'level_note': 'trusted: Verus/Z3, vstd, extractor rules R1 R5 (for over iterator -> loop/match) R7 R8 R9; R8 stub verif_div_all (iter_mut().for_each divides every element once); '
+                      'get_unchecked(_mut) assumed with exactly their safety precondition; imported contracts KmerGenerator::new/next (unit kmer_gen) and posmaps_ok (unit posmaps) '
+                      'run as dependencies; float division is the IEEE correctly rounded quotient and {:.6} formatting is std (not verified): "correct to 6 decimals" rests on those. '
+                      'Reverse-complement / case / U-for-T invariance follows from the spec (nt ignores case, maps U to 3; canonical code is strand-symmetric).',
+        'not_reached': ['text rendering of the row (format!("{:.6}"), join) and the file/CLI path: see C05', 'pyo3 argument conversion for the binding'],
     },
 }
 
